@@ -891,40 +891,60 @@ func (e *enc) finish() {
 			}
 		}
 	}
-	done := map[*Axiom]bool{}
+	done := map[string]bool{}
 	var axioms []string
 	for changed := true; changed; {
 		changed = false
-		for _, ax := range e.w.CS.Axioms {
-			if done[ax] || ax.Lemma {
+		for ai, ax := range e.w.CS.Axioms {
+			if ax.Lemma {
 				continue
 			}
 			uses := false
 			src := ax.Expr.String()
+			// states to instantiate for: the entry state, or every recorded state of the heap-dependent
+			// spec functions the axiom mentions
+			states := map[string]hstate{}
 			for s := range e.usedSpecs {
 				if strings.Contains(src, s+"(") {
 					uses = true
+					for suffix, st := range e.specStates[s] {
+						states[suffix] = st
+					}
 				}
 			}
 			if !uses {
 				continue
 			}
-			done[ax] = true
-			changed = true
-			env := e.newEnv()
-			env.pkg = ax.Pkg
-			env.st, env.old = e.entry, e.entry
-			before := len(e.asserts)
-			t, err := env.boolTerm(ax.Expr)
-			if err != nil {
-				e.contractError(ax.Clause, err)
-				continue
+			if len(states) == 0 {
+				states["entry"] = e.entry
 			}
-			// facts produced while translating the axiom go with it
-			axioms = append(axioms, e.asserts[before:]...)
-			e.asserts = e.asserts[:before]
-			axioms = append(axioms, t)
-			e.assumptions["definitional axiom "+ax.Label] = true
+			var sk []string
+			for k := range states {
+				sk = append(sk, k)
+			}
+			sort.Strings(sk)
+			for _, k := range sk {
+				key := fmt.Sprintf("%d/%s", ai, k)
+				if done[key] {
+					continue
+				}
+				done[key] = true
+				changed = true
+				env := e.newEnv()
+				env.pkg = ax.Pkg
+				env.st, env.old = states[k], states[k]
+				before := len(e.asserts)
+				t, err := env.boolTerm(ax.Expr)
+				if err != nil {
+					e.contractError(ax.Clause, err)
+					continue
+				}
+				// facts produced while translating the axiom go with it
+				axioms = append(axioms, e.asserts[before:]...)
+				e.asserts = e.asserts[:before]
+				axioms = append(axioms, t)
+				e.assumptions["definitional axiom "+ax.Label] = true
+			}
 		}
 	}
 	if len(e.allocSites) > 8 {
